@@ -14,14 +14,14 @@ import (
 
 // scripted underlying body: chunk sizes, where EOF is reported, optional injected error
 type c14Body struct {
-	data     []byte
-	pos      int
-	chunks   []int // max bytes returned by i-th underlying Read (cyclic)
-	call     int
-	eofWith  bool // report EOF together with the last bytes
-	failAt   int  // underlying call index at which a non-EOF error is returned (-1: never)
-	log      [][2]int
-	closed   bool
+	data    []byte
+	pos     int
+	chunks  []int // max bytes returned by i-th underlying Read (cyclic)
+	call    int
+	eofWith bool // report EOF together with the last bytes
+	failAt  int  // underlying call index at which a non-EOF error is returned (-1: never)
+	log     [][2]int
+	closed  bool
 }
 
 var errC14Other = errors.New("c14: injected read error")
